@@ -16,12 +16,11 @@ def allRange (lo n : Nat) (p : Nat → Bool) : Bool := all1 n (fun i => p (lo + 
 def all2 (n m : Nat) (p : Nat → Nat → Bool) : Bool := all1 n (fun a => all1 m (fun b => p a b))
 def all3 (n m k : Nat) (p : Nat → Nat → Nat → Bool) : Bool := all1 n (fun a => all1 m (fun b => all1 k (fun c => p a b c)))
 
-/-- tail-recursive variant for very long ranges (native sweeps over 2^24 … 2^32 cases) -/
-def allRangeTR (lo n : Nat) (p : Nat → Bool) : Bool := Id.run do
-  let mut ok := true
-  for i in [0:n] do
-    if !(p (lo + i)) then ok := false
-  return ok
+/-- tail-recursive variant for very long ranges (native sweeps over 2^24 … 2^32 cases; no stack growth) -/
+def allRangeTR.go (lo : Nat) (p : Nat → Bool) : Nat → Bool → Bool
+  | 0, acc => acc
+  | k + 1, acc => allRangeTR.go lo p k (acc && p (lo + k))
+def allRangeTR (lo n : Nat) (p : Nat → Bool) : Bool := allRangeTR.go lo p n true
 
 def isOk {α} [BEq α] (r : Rs.M α) (v : α) : Bool :=
   match r with
